@@ -27,7 +27,7 @@ SumInts(s) == IF s = <<>> THEN 0 ELSE Head(s) + SumInts(Tail(s))
 
 \* number of input groups, in exposure order: scalars (or their bits / bytes / coordinates), then points
 NScalarGroups(e) ==
-  CASE e.op \in {"msm", "msm_bounded"} -> Len(e.scalars)
+  CASE e.op \in {"msm", "msm_bounded", "msm_negpair", "msm_dup"} -> Len(e.scalars)
     [] e.op = "msm_le_bits" -> SumInts(e.bounds)
     [] e.op = "msm_bytes" -> Len(e.scalars) * e.params[1]
     [] e.op = "from_coords" -> 2
@@ -63,7 +63,7 @@ Inputs(e, vals) ==
   LET ns == NScalarGroups(e)
       sv == SubSeq(vals, 1, ns)
   IN [P |-> SubSeq(vals, ns + 1, ns + Len(e.pts)),
-      S |-> CASE e.op \in {"msm", "msm_bounded"} -> sv
+      S |-> CASE e.op \in {"msm", "msm_bounded", "msm_negpair", "msm_dup"} -> sv
               [] e.op = "msm_le_bits" -> BitsToNats(sv, e.bounds, 1)
               [] e.op = "msm_bytes" -> BytesToNats(sv, Len(e.scalars), e.params[1], 1)
               [] OTHER -> <<>>,
@@ -73,7 +73,7 @@ Inputs(e, vals) ==
 HonInputs(e) ==
   LET c == CurveOf(e.curve) IN
   [P |-> [i \in 1..Len(e.pts) |-> PMulI(c, e.pts[i], c.g)],
-   S |-> CASE e.op \in {"msm", "msm_bounded"} -> [i \in 1..Len(e.scalars) |-> Rem(e.scalars[i], c.r)]
+   S |-> CASE e.op \in {"msm", "msm_bounded", "msm_negpair", "msm_dup"} -> [i \in 1..Len(e.scalars) |-> Rem(e.scalars[i], c.r)]
            [] e.op = "msm_le_bits" -> [i \in 1..Len(e.scalars) |-> Rem(e.scalars[i], Pow2(e.bounds[i]))]
            [] e.op = "msm_bytes" -> [i \in 1..Len(e.scalars) |-> Rem(e.scalars[i], Pow2(8 * e.params[1]))]
            [] OTHER -> <<>>,
